@@ -8,6 +8,7 @@ Inductive c10case :=
           (obs : list sentobs) (sents : list (N * bool))     (* one text edit of one definition file: the whole build and the tokenization are compared with the text-level model *)
 | C10Bigram (id : N) (edited : N) (dual : bool) (built : N) (sents : list (N * bool)) (rtxt ltxt ctxt : str) (maxl maxr : N) (base_ok : bool)   (* the dictionary with a raw/dual connector from bigram files, valid or with one text edit *)
 | C10BigMap (id : N) (nl nr : N) (outcome : N) (sents : list (N * bool))   (* a VALID permutation of all ids of a connector with 65536 ids on one side: must be accepted *)
+| C10Invalid (id : N) (which : N) (built : N)   (* a definition file with a byte that is not UTF-8: must be an error *)
 | C10Map (id : N) (nl nr : N) (lmap rmap : list N) (outcome : N) (sents : list (N * bool)).   (* an arbitrary mapping sequence on an accepted dictionary *)  (* one text edit of one definition file: outcomes only *)
 
 (** the definition files at text level: every file parsed by its model, then the structured model *)
@@ -32,6 +33,7 @@ Definition c10_corr (c : c10case) : bool :=
       end
   | C10Bigram _ _ _ built _ rtxt ltxt ctxt maxl maxr base_ok => negb base_ok || (bigram_build_code rtxt ltxt ctxt maxl maxr =? built)%N   (* text-level model of the three bigram files *)
   | C10Map _ nl nr l r out _ => (res_code (check_map (N.to_nat nl) (N.to_nat nr) l r) =? out)%N
+  | C10Invalid _ _ built => (built =? 1)%N
   | C10BigMap _ _ _ out _ => (out =? 0)%N       (* the model accepts every valid permutation: c06_parse_accepts_iff *)
   end.
 
@@ -46,6 +48,7 @@ Definition c10_oracle_all (c : c10case) : bool :=
   | C10Bigram _ _ _ built sents _ _ _ _ _ _ => negb (built =? 2)%N && forallb (fun s => negb (fst s =? 2)%N) sents
   | C10Map _ _ _ _ _ out sents => negb (out =? 2)%N && forallb (fun s => negb (fst s =? 2)%N) sents
   | C10BigMap _ _ _ out sents => negb (out =? 2)%N && forallb (fun s => negb (fst s =? 2)%N) sents
+  | C10Invalid _ _ built => negb (built =? 2)%N
   end.
 Definition c10_known (c : c10case) : bool :=
   negb (c10_oracle_all c)
@@ -57,6 +60,7 @@ Definition c10_known (c : c10case) : bool :=
      | C10Bigram _ _ _ built sents _ _ _ _ _ _ => negb (built =? 2)%N && forallb (fun s => negb (fst s =? 2)%N || snd s) sents
      | C10Map _ _ _ _ _ out sents => negb (out =? 2)%N && forallb (fun s => negb (fst s =? 2)%N || snd s) sents
      | C10BigMap _ _ _ out sents => negb (out =? 2)%N && forallb (fun s => negb (fst s =? 2)%N || snd s) sents
+     | C10Invalid _ _ _ => false
      end.
 
 Definition c10_nontrivial (c : c10case) : bool :=
@@ -66,6 +70,7 @@ Definition c10_nontrivial (c : c10case) : bool :=
   | C10Bigram _ e _ built _ _ _ _ _ _ _ => (built =? 1)%N || (e =? 0)%N
   | C10Map _ _ _ _ _ out _ => (out =? 1)%N
   | C10BigMap _ _ _ _ _ => true
+  | C10Invalid _ _ _ => true
   end.
 
 Definition c10_report (cases : list c10case) : list N * list N * list N * N :=
